@@ -554,6 +554,12 @@ def oracle_spans(ctx: Ctx, lines):
                     break
             except Exception:
                 pass
+            if not s.needs_resolve and not isinstance(s._start, D.ContextualPeriod) and not isinstance(s._end, D.ContextualPeriod) \
+                    and type(s._start) is not type(s._end):
+                # mixing frequencies is rejected rather than silently compared: no operation may hand out a resolved span
+                # whose ends have different frequencies
+                ctx.fail("mixed-frequency-not-rejected", case, f"after {op}: resolved span from {s._start!r} to {s._end!r}")
+                break
             if s.needs_resolve or s._step == 0 or type(s._start) is not type(s._end):
                 continue
             want = pyrange_list(s._start.serial, s._end.serial, s._step)
